@@ -282,7 +282,7 @@ func inCampaign(r *ev.Run, prop string) {
 			case mine != "":
 				reportedIn[mine] = true
 				hits := 0
-				for n := 0; n < 4 && hits < 2; n++ {
+				for n := 0; n < 8 && hits < 2; n++ {
 					rr := brk.RunIn(ru.sched, ru.opts)
 					if rr.Infra != nil {
 						continue
@@ -304,7 +304,7 @@ func inCampaign(r *ev.Run, prop string) {
 				} else if hits == 0 {
 					transient(r, "rejected input trace (%s): %v\n trace %v at %d", mine, ru.sched, traces[k], at)
 				} else {
-					r.Inconclusive("rejected input trace reproduced only once in four re-executions (%s): %v\n trace %v at %d", mine, ru.sched, traces[k], at)
+					r.Inconclusive("rejected input trace reproduced only once in eight re-executions (%s): %v\n trace %v at %d", mine, ru.sched, traces[k], at)
 				}
 			default:
 				fmt.Printf("note: rejected input trace attributed to %v; reported by that property's check\n", attrs)
